@@ -745,23 +745,6 @@ func c06(c *Ctx) {
 			}
 		}
 	}
-	// look-ahead runs: every trigger × three run lengths × every variant (the shards share the
-	// triggers between them), all six entry points as for every job
-	for k := range c06LookAhead {
-		if k%c.Shards != c.Shard {
-			continue
-		}
-		for _, n := range c06RunLens() {
-			for _, lang := range allLangs {
-				src := c06LookAheadInput(k, n, 0)
-				o := c06Opts{lang: lang, keep: k%2 == 0}
-				if (k+n)%7 == 0 {
-					o.recover = 2
-				}
-				jobs = append(jobs, job{src, "lookahead-run", o, c.R.Fork(src)})
-			}
-		}
-	}
 	if c.Shard == 0 {
 		for _, u := range c06DeepUnits {
 			for _, n := range []int{100, 300, 1000} {
@@ -842,6 +825,24 @@ func c06(c *Ctx) {
 		}
 		jobs = append(jobs, job{src, kind, o, r.Fork(fmt.Sprint(i))})
 	}
+	// (scheduled last: should one of them hang, little other work is lost)
+	// look-ahead runs: every trigger × three run lengths × every variant (the shards share the
+	// triggers between them), all six entry points as for every job
+	for k := range c06LookAhead {
+		if k%c.Shards != c.Shard {
+			continue
+		}
+		for _, n := range c06RunLens() {
+			for _, lang := range allLangs {
+				src := c06LookAheadInput(k, n, 0)
+				o := c06Opts{lang: lang, keep: k%2 == 0}
+				if (k+n)%7 == 0 {
+					o.recover = 2
+				}
+				jobs = append(jobs, job{src, "lookahead-run", o, c.R.Fork(src)})
+			}
+		}
+	}
 	type res struct {
 		fails    []Failure
 		tree     bool
@@ -889,7 +890,7 @@ func c06(c *Ctx) {
 				out.suspects = append(out.suspects, e)
 				continue
 			}
-			if leaked.Load() >= 16 {
+			if leaked.Load() >= 6 {
 				// too many abandoned (possibly spinning) goroutines: schedule no more in-process work
 				out.skipped = true
 				break
@@ -919,34 +920,56 @@ func c06(c *Ctx) {
 	})
 	// A case that ran out of its wall-clock budget is only a suspect (the machine may be loaded).
 	// It is run again in a child process, which can be killed, and judged by the CPU time it burns:
-	// 20 s + 20 ms per input byte of CPU without returning is a hang.
+	// 10 s + 2 ms per input byte of CPU without returning is a hang.  Inputs are examined four at a
+	// time; once one entry point of an input is confirmed to hang, its other entry points are not
+	// examined (one witness per input).
+	var suspectInputs []int
 	for i := range results {
+		if len(results[i].suspects) > 0 {
+			suspectInputs = append(suspectInputs, i)
+		}
+	}
+	type childRes struct {
+		fails []Failure
+		hist  map[string]int
+	}
+	childOut := parallelMap(len(suspectInputs), 4, func(k int) childRes {
+		i := suspectInputs[k]
 		j := jobs[i]
+		out := childRes{hist: map[string]int{}}
 		for _, e := range results[i].suspects {
-			c.Hist["suspect-rerun-in-child"]++
+			out.hist["suspect-rerun-in-child"]++
 			w := fmt.Sprintf("%s %s %s", c06Entries[e], j.o, hx(j.src))
-			cpuBudget := 20 + 0.02*float64(len(j.src))
-			status, msg, cpu := c06RunChild(e, j.o, c06Entries[e], j.src, cpuBudget, 15*time.Minute)
-			c.Hist["suspect-child:"+status]++
+			cpuBudget := 10 + 0.002*float64(len(j.src))
+			status, msg, cpu := c06RunChild(e, j.o, c06Entries[e], j.src, cpuBudget, 10*time.Minute)
+			out.hist["suspect-child:"+status]++
 			switch status {
 			case "hang":
-				results[i].fails = append(results[i].fails, Failure{Witness: w, What: fmt.Sprintf("did not return: a child process running only this case was killed after %.0f s of CPU time (hang)", cpu)})
+				out.fails = append(out.fails, Failure{Witness: w, What: fmt.Sprintf("did not return: a child process running only this case was killed after %.0f s of CPU time (hang)", cpu)})
+				return out
 			case "returned":
 				if msg != "" {
-					results[i].fails = append(results[i].fails, Failure{Witness: w, What: msg})
+					out.fails = append(out.fails, Failure{Witness: w, What: msg})
 				}
 			case "other":
 				if msg != "" && !strings.Contains(msg, "stack overflow") {
-					results[i].fails = append(results[i].fails, Failure{Witness: w, What: msg})
+					out.fails = append(out.fails, Failure{Witness: w, What: msg})
 				}
 			}
+		}
+		return out
+	})
+	for k, co := range childOut {
+		results[suspectInputs[k]].fails = append(results[suspectInputs[k]].fails, co.fails...)
+		for h, n := range co.hist {
+			c.Hist[h] += n
 		}
 	}
 	var slowest time.Duration
 	slowKinds := map[string]time.Duration{}
 	for i, r := range results {
 		if r.skipped {
-			c.Hist["skipped-after-16-timeouts"]++
+			c.Hist["skipped-after-6-timeouts"]++
 		}
 		slowKinds[jobs[i].kind] += r.slow
 		j := jobs[i]
